@@ -157,6 +157,8 @@ def bev(n, env):
         return env["len"]
     if k == "mcall" and n.get("m") == "is_empty" and "len" in env:
         return env["len"] == 0
+    if k == "mcall" and not n.get("a") and ("()" + str(n.get("m"))) in env:
+        return env["()" + n["m"]]      # a zero-argument predicate method given a value by the caller (`ty.is_consuming()`)
     if k == "if":
         c = bev(n["c"], env)
         if c:
